@@ -63,6 +63,7 @@ def run(chk, repo: Repo):
     _r3(chk, repo)
     _r3_location_additive(chk, repo)
     _r4(chk, repo, dist)
+    _r4_column_fill(chk, repo)
     _r5(chk, repo, samplers)
     chk.rule("C05-R6", "lazy caches of the distribution layer are reset by every writer of the fields they were computed from "
                        "(a sampler must not use a structure flag / factor cached for an earlier parameter value)", floor=2)
@@ -228,6 +229,47 @@ def _r2(chk, repo, samplers):
 
 SOLVERS = {"spa.linalg.spsolve", "splinalg.spsolve", "splinalg.solve", "splinalg.solve_triangular", "spsolve", "solve", "solve_triangular",
            "sp.sparse.linalg.spsolve", "sp.linalg.solve", "np.linalg.solve", "nplinalg.solve"}
+
+
+def _r4_column_fill(chk, repo):
+    """A sampler that fills a (dim, N) array draw by draw fills EVERY column exactly once: `for i in range(N): out[:, i] = draw`, or column 0 first and
+    `for i in range(N-1): out[:, i+1] = draw` / `for i in range(1, N): out[:, i] = draw`.  (A loop that re-writes column 0 and leaves the last column at its
+    initial zeros returns N columns of which one is not a draw.)"""
+    from ..pattern import norm as pn
+    n = 0
+    for m in repo.modules.values():
+        if not m.rel.startswith("cuqi/distribution/"):
+            continue
+        for ci in m.classes.values():
+            fn = ci.methods.get("_sample")
+            if fn is None:
+                continue
+            allocs = {}
+            for st in ast.walk(fn):
+                if isinstance(st, ast.Assign) and len(st.targets) == 1 and isinstance(st.targets[0], ast.Name) and isinstance(st.value, ast.Call) \
+                        and (call_name(st.value) or "") in ("np.zeros", "np.empty") and st.value.args and isinstance(st.value.args[0], ast.Tuple) and len(st.value.args[0].elts) == 2:
+                    allocs[st.targets[0].id] = pn(st.value.args[0].elts[1])
+            for lp in [x for x in ast.walk(fn) if isinstance(x, ast.For)]:
+                if not (isinstance(lp.target, ast.Name) and isinstance(lp.iter, ast.Call) and call_name(lp.iter) == "range"):
+                    continue
+                i = lp.target.id
+                for st in lp.body:
+                    if not (isinstance(st, ast.Assign) and len(st.targets) == 1 and isinstance(st.targets[0], ast.Subscript) and isinstance(st.targets[0].value, ast.Name)
+                            and st.targets[0].value.id in allocs and isinstance(st.targets[0].slice, ast.Tuple) and len(st.targets[0].slice.elts) == 2
+                            and isinstance(st.targets[0].slice.elts[0], ast.Slice)):
+                        continue
+                    arr = st.targets[0].value.id
+                    N = allocs[arr]
+                    idx = pn(st.targets[0].slice.elts[1])
+                    rng_ = [pn(a_) for a_ in lp.iter.args]
+                    first = any(isinstance(q, ast.Assign) and isinstance(q.targets[0], ast.Subscript) and path_of(q.targets[0].value) == arr
+                                and isinstance(q.targets[0].slice, ast.Tuple) and pn(q.targets[0].slice.elts[1]) == "0" for q in ast.walk(fn))
+                    ok = (rng_ == [N] and idx == i) or (first and rng_ == [f"{N}-1"] and idx in (f"{i}+1", f"1+{i}")) or (first and rng_ == ["1", N] and idx == i)
+                    n += 1
+                    chk.add("C05-R4", f"{ci.qual}._sample/columns@{arr}", ok, site(repo, lp), f"every one of the {N} columns of `{arr}` is filled by one draw",
+                            f"`for {i} in range({', '.join(rng_)}): {arr}[:, {idx}] = ...` does not fill each of the {N} columns of `{arr}` exactly once: a column is drawn twice and "
+                            f"another keeps its initial value, so the returned collection contains a column that is not a draw", lp)
+    return n
 
 
 def _r3_location_additive(chk, repo):
